@@ -53,6 +53,10 @@ func lifeScenario(rng *rand.Rand, base, max int) scen.Scenario {
 	if usePing {
 		sc.PingMs = 4
 	}
+	if usePing && rng.Intn(3) == 0 {
+		// the very first connection (the one made while the caller's Connect was running) goes deaf
+		steps = append(steps, pubStep(), scen.Step{Op: "deafconn"})
+	}
 	for i := 0; i < n; i++ {
 		switch rng.Intn(7) {
 		case 0:
@@ -62,7 +66,10 @@ func lifeScenario(rng *rand.Rand, base, max int) scen.Scenario {
 		case 2:
 			steps = append(steps, scen.Step{Op: "down"}, scen.Step{Op: "sleep", Ms: 1 + rng.Intn(3*max+2)}, scen.Step{Op: "up"}, pubStep())
 		case 3:
-			if usePing {
+			if usePing && rng.Intn(2) == 0 {
+				// the current connection goes deaf for PINGREQ only: nothing but the keep-alive can end it
+				steps = append(steps, scen.Step{Op: "deafconn"}, pubStep())
+			} else if usePing {
 				steps = append(steps, scen.Step{Op: "silentping"}, scen.Step{Op: "sleep", Ms: 20 + rng.Intn(10)}, scen.Step{Op: "pingok"}, pubStep())
 			} else {
 				steps = append(steps, pubStep())
@@ -137,6 +144,14 @@ func c09Run(c fw.Case, env *fw.Env) fw.Result {
 					return r
 				}
 				continue
+			}
+			for _, e := range run.Tr.Snapshot() {
+				if e.Kind == memnet.KNote && e.S == "connection never answers PINGREQ again" {
+					r.Counters["connections_gone_deaf_for_ping"]++
+				}
+			}
+			for _, id := range run.DeafOpen {
+				f = append(f, scen.Finding{Sig: "keepalive-timeout-not-followed-by-redial", Detail: fmt.Sprintf("connection %d stopped answering PINGREQ (keep-alive %dms, timeout %dms) and %v later the client still holds on to it: no close, no new connection", id, sc.PingMs, sc.TimeoutMs, scen.Watchdog/2)})
 			}
 			if run.Stuck {
 				f = append(f, scen.Finding{Sig: "never-reconnects", Detail: "after the faults stopped the client never established a connection again (certified stuck)\n" + run.GoDump})
